@@ -269,7 +269,7 @@ def run_property(prop, tier="quick", repo_root="/repo", seed=0, only=None, verbo
         # maintenance only (tools/mkbaseline.py): the obligations that are discharged on the unchanged tree
         bpath = os.path.join(VERIF, "contracts", "BASELINE_OBLIGATIONS.json")
         b = load_json(bpath, {})
-        b[prop] = sorted(set(norm(n) for n in discharged if by_name[n][0]["obligation"].kind in ("ensures", "frame", "raises", "loop-init", "loop-preserve", "loop-decreases")))
+        b[prop] = sorted(set(norm(n) for n in discharged if by_name[n][0]["obligation"].kind in ("ensures", "frame", "raises", "loop-init", "loop-preserve", "loop-decreases", "call-pre", "safety")))
         json.dump(b, open(bpath, "w"), indent=0, sort_keys=True)
     for l in sorted(set(known_lines)):
         print(l)
